@@ -4,7 +4,7 @@ from .progfam import *
 
 def run(tier, seed):
     return run_prog_property(
-        "C10", ["scoping"], tier, seed, verdict_fams=("scoping",),
+        "C10", ["scoping"], tier, seed, verdict_fams=("scoping",), trace_fams=("scoping",),
         rule="TLC enumerates binding structures (MC_Scoping.tla): blocks nested to depth 2-3 whose statements are drawn from 12 "
              "binder shapes over the two names a, b (plain, tuple, array, nested and ignore patterns, right-hand sides that read "
              "the old bindings, inner blocks whose bindings must vanish, match arms binding a or b, calls of functions whose "
@@ -12,5 +12,10 @@ def run(tier, seed):
              "match probe at the innermost point is the value of the whole expression. The reference (lexical scoping, "
              "Dynamic.tla) computes the pair that must be observed; per program 12 witness points: the prescribed pair (must "
              "succeed), the swapped pair and (1,2) (must fail unless equal). Model invariant: the scope/path translation of "
-             "compile.rs (first pre-order occurrence in the input pattern) yields the same value on every structure.",
+             "compile.rs (first pre-order occurrence in the input pattern) yields the same value on every structure. "
+             "Implementation -> specification: the hooks of the cargo feature `verif` record every push / pop / insert / lookup of "
+             "the typing-side scope stack (ast.rs) and of the code-generation scope (compile.rs) while the real compiler processes "
+             "an evenly spaced subset of these programs; TLC validates the concatenated trace against TraceScopes.tla - a lookup "
+             "must return the nearest binding of the specification's frame stack, and the recorded take/drop path must be the "
+             "path that Codegen.tla's ScopeGet computes on the replayed scope.",
         assumptions=BASE_ASSUMPTIONS)
